@@ -37,7 +37,11 @@ type Buf struct {
 
 // Step is one operation of the history.
 type Step struct {
-	Kind  string `json:"kind"` // "h2d" | "d2h" | "kernel" | "run"
+	// Kind: "h2d" | "d2h" | "kernel" | "run" | "free" (FreeMemory of Buf) |
+	// "alloc" (Buf is allocated here instead of before the history; never
+	// initialised by a copy). "free"/"alloc" act immediately and stand only
+	// directly after a run point.
+	Kind  string `json:"kind"`
 	Q     int    `json:"q,omitempty"`
 	Buf   int    `json:"buf,omitempty"`
 	Off   int    `json:"off,omitempty"`   // byte offset inside the buffer
@@ -161,6 +165,7 @@ type bufState struct {
 	kline map[int]bool
 	// gpuCut: byte offsets at which the buffer continues in another GPU's memory
 	gpuCut []int
+	freed  bool
 }
 
 func (b *bufState) snapshot() { b.snaps = append(b.snaps, append([]byte(nil), b.model...)) }
@@ -253,11 +258,35 @@ func (c Case) validate() {
 			}
 		}
 	}
+	freed := map[int]bool{}
+	for i, s := range c.Steps {
+		if s.Kind == "alloc" {
+			if s.Buf < 0 || s.Buf >= len(c.Bufs) || freed[s.Buf] || c.Bufs[s.Buf].Init {
+				bad("step %d %+v", i, s)
+			}
+			freed[s.Buf] = true // not usable before this step
+		}
+	}
 	for i, s := range c.Steps {
 		if s.Kind == "run" {
 			continue
 		}
-		if s.Q < 0 || s.Q >= len(c.Queues) || s.Buf < 0 || s.Buf >= len(c.Bufs) || s.Off < 0 || s.Count < 1 {
+		if s.Kind == "alloc" {
+			if i == 0 || (c.Steps[i-1].Kind != "run" && c.Steps[i-1].Kind != "free" && c.Steps[i-1].Kind != "alloc") {
+				bad("step %d %+v", i, s)
+			}
+			freed[s.Buf] = false
+			continue
+		}
+		if s.Kind == "free" {
+			// FreeMemory acts immediately: only with nothing enqueued, each buffer once
+			if s.Buf < 0 || s.Buf >= len(c.Bufs) || freed[s.Buf] || i == 0 || (c.Steps[i-1].Kind != "run" && c.Steps[i-1].Kind != "free" && c.Steps[i-1].Kind != "alloc") {
+				bad("step %d %+v", i, s)
+			}
+			freed[s.Buf] = true
+			continue
+		}
+		if s.Q < 0 || s.Q >= len(c.Queues) || s.Buf < 0 || s.Buf >= len(c.Bufs) || s.Off < 0 || s.Count < 1 || freed[s.Buf] {
 			bad("step %d %+v", i, s)
 		}
 		size := c.Bufs[s.Buf].Size
@@ -347,7 +376,35 @@ func (r *runner) setup() {
 	if len(c.Unified) > 0 {
 		r.udev = d.CreateUnifiedGPU(r.ctx, append([]int(nil), c.Unified...))
 	}
-	for _, b := range c.Bufs {
+	late := map[int]bool{}
+	for _, s := range c.Steps {
+		if s.Kind == "alloc" {
+			late[s.Buf] = true
+		}
+	}
+	r.bufs = make([]*bufState, len(c.Bufs))
+	for i := range c.Bufs {
+		if !late[i] {
+			r.allocBuf(i)
+		}
+	}
+	d.SelectGPU(r.ctx, 1)
+	r.tail = d.AllocateMemory(r.ctx, lineSize)
+	for _, dev := range c.Queues {
+		if dev == 0 {
+			dev = r.udev
+			r.labels.add("queue-on-unified-device")
+		}
+		d.SelectGPU(r.ctx, dev)
+		r.queues = append(r.queues, d.CreateCommandQueue(r.ctx))
+	}
+	d.SelectGPU(r.ctx, 1)
+}
+
+// allocBuf allocates buffer i the way its description says.
+func (r *runner) allocBuf(i int) {
+	d, b := r.d, r.c.Bufs[i]
+	{
 		st := &bufState{model: make([]byte, b.Size), dram: make([]byte, b.Size), writer: make([]byte, b.Size), kline: map[int]bool{}}
 		kind := "plain"
 		switch b.Dev {
@@ -390,17 +447,7 @@ func (r *runner) setup() {
 		if len(st.gpuCut) > 0 {
 			r.labels.add("buf:spans-gpus")
 		}
-		r.bufs = append(r.bufs, st)
-	}
-	d.SelectGPU(r.ctx, 1)
-	r.tail = d.AllocateMemory(r.ctx, lineSize)
-	for _, dev := range c.Queues {
-		if dev == 0 {
-			dev = r.udev
-			r.labels.add("queue-on-unified-device")
-		}
-		d.SelectGPU(r.ctx, dev)
-		r.queues = append(r.queues, d.CreateCommandQueue(r.ctx))
+		r.bufs[i] = st
 	}
 	d.SelectGPU(r.ctx, 1)
 }
@@ -461,7 +508,7 @@ func (r *runner) history() bool {
 	c, d := r.c, r.d
 	// initial contents
 	for i, b := range c.Bufs {
-		if !b.Init {
+		if !b.Init || r.bufs[i] == nil {
 			continue
 		}
 		st := r.bufs[i]
@@ -488,6 +535,26 @@ func (r *runner) history() bool {
 			if !r.run(i) {
 				return false
 			}
+			continue
+		}
+		if s.Kind == "alloc" {
+			if r.pendingCmds {
+				panic("harness: alloc with commands enqueued")
+			}
+			r.allocBuf(s.Buf)
+			r.labels.add("op:alloc-after-run")
+			continue
+		}
+		if s.Kind == "free" {
+			if r.pendingCmds {
+				panic("harness: free with commands enqueued")
+			}
+			if err := d.FreeMemory(r.ctx, r.bufs[s.Buf].ptr); err != nil {
+				r.res.Violation = fmt.Sprintf("FreeMemory of buffer %d: %v", s.Buf, err)
+				return false
+			}
+			r.bufs[s.Buf].freed = true
+			r.labels.add("op:free")
 			continue
 		}
 		usedQ[s.Q] = true
@@ -686,6 +753,9 @@ func (r *runner) finish() {
 	d := r.d
 	q := r.queues[0]
 	for i, st := range r.bufs {
+		if st == nil || st.freed {
+			continue
+		}
 		host := bytes.Repeat([]byte{0xA5}, len(st.model))
 		d.EnqueueMemCopyD2H(q, host, st.ptr)
 		r.reads = append(r.reads, pendingRead{step: -1, buf: i, off: 0, host: host, typ: "u8",
